@@ -198,7 +198,7 @@ def correspondence(res, st, tier, work, extra_gen=()):
 # ------------------------------------------------------------------ trace parsing for the oracles
 
 class Step:
-    __slots__ = ("op", "res", "snap", "obs", "convs", "dconv", "raw_s", "raw_o", "gets", "all_o", "twin")
+    __slots__ = ("op", "res", "snap", "obs", "convs", "dconv", "raw_s", "raw_o", "gets", "all_o", "twin", "qtwin")
 
     def __init__(self, op):
         self.op = op.split()
@@ -212,6 +212,7 @@ class Step:
         self.gets = []      # G lines (all query functions, one line per repetition)
         self.all_o = []     # every O line of the step
         self.twin = None    # T line: reset context vs fresh twin
+        self.qtwin = None   # Q line: the never-queried twin vs the queried editor
 
 
 def kv(line):
@@ -276,6 +277,8 @@ def parse_cases(path):
                 step.gets.append(rest)
             elif tag == "T":
                 step.twin = rest
+            elif tag == "Q":
+                step.qtwin = rest
     return cases
 
 
